@@ -55,10 +55,14 @@ def grid(tier):
     X, Y, P = ("var", "x"), ("var", "y"), ("param", "p")
     v, w = ("vec", "v", n), ("vec", "w", n)
     A, B = ("mat", "A", r, c), ("mat", "B", r, c)
-    scal_l = [X, P, ("bin", "+", ("bin", "*", X, Y), ("num", 1.0)), ("bin", "+", ("bin", "*", P, X), Y)]
+    rv = ("slice", v, None, None, -1)
+    scal_l = [X, P, ("bin", "+", ("bin", "*", X, Y), ("num", 1.0)), ("bin", "+", ("bin", "*", P, X), Y),
+              # vector reductions over views (the compiled fun and its jac take different routes)
+              ("dot", rv, w), ("dot", v, rv), ("quad", rv, [[float((i * 2 + j * 3) % 5) for j in range(n)] for i in range(n)]),
+              ("lincomb", [1.0, 2.0, 3.0, 4.0][:n], ("slice", v, 0, n, 2) if n < 3 else ("slice", v, None, None, -2))]
     scal_r = [("py", "int", 3), ("py", "float", S("r")), ("np", "float64", 2.5), ("np", "int64", 3), ("np", "arr0", 2.5),
               Y, P, ("bin", "*", Y, ("num", 2.0)), ("py", "float", 0.0)]
-    vec_l = [v, ("vbin", "+", v, w)]
+    vec_l = [v, ("vbin", "+", v, w), rv]
     vec_r = [("py", "float", S("r")), ("py", "int", 2), ("np", "float64", 2.5), ("np", "int64", 3), w, ("vbin", "*", w, ("sc", 2.0)),
              ("lst", [S(f"r{i}") for i in range(n)]), ("arr", [S(f"r{i}") for i in range(n)])]
     mat_l = [A, ("mbin", "+", A, ("sc", 1.0)), ("mT", ("mat", "C", c, r))]
